@@ -8,7 +8,8 @@ EXPLANATION = ("C03: the encoder's structure is compared with the Source Map v3 
                "generated-column state (and only it) reset on a new line, exact duplicates the only tokens skipped; (R2) "
                "optional keys carry skip-if-none and the encoder yields None rather than empty values; (R3) version 3 in "
                "every writer; (R4) VLQ writer shape/alphabet and who-may-call encode_vlq; (R5) sections written "
-               "recursively with unswapped offsets.")
+               "recursively with unswapped offsets."
+               " (R8) the data URL is standard padded base64 behind the literal preamble.")
 NOT_DECIDED = "that an independent v3 reader decodes exactly the map's tokens for all maps (value-level)."
 
 RULES = {
